@@ -234,6 +234,9 @@ func hasClose(tasks []sockTask, id uint32) bool {
 
 func checkB(c CaseB) (v *core.Violation) {
 	defer slowLog("b", c)()
+	if censusSane() != "" {
+		return skip("goroutine-model-mismatch")
+	}
 	x := &runB{f: newFixture()}
 	defer func() { x.f.cleanup(x.clis()) }()
 	for i, op := range c.Ops {
@@ -350,7 +353,6 @@ func (x *runB) opConnect(op OpB) (*core.Violation, string) {
 		}
 	}
 	port := x.f.live[op.Sel%len(x.f.live)]
-	t0 := time.Now()
 	c0, err := dialProxy(port)
 	if err != nil {
 		return core.V("b|connect|dial-refused", "cannot connect to live proxy %s: %v", port, err), ""
@@ -361,8 +363,6 @@ func (x *runB) opConnect(op OpB) (*core.Violation, string) {
 		return nil, "client-write-failed"
 	}
 	rep, err := cl.recv(2, true)
-	opTime("connect.greet", t0)
-	t0 = time.Now()
 	if err != nil || rep[0] != 5 || rep[1] != 0 {
 		cl.dead = true
 		return core.V("b|connect|method-reply", "greeting 05 01 00 answered with % x (%v)", rep, err), ""
@@ -373,9 +373,6 @@ func (x *runB) opConnect(op OpB) (*core.Violation, string) {
 	}
 	cl.reader = "spin"
 	tasks, ok, v := x.settle()
-	opTime("connect.request", t0)
-	t0 = time.Now()
-	defer func() { opTime("connect.answer", t0) }()
 	if v != nil {
 		return v, ""
 	}
@@ -987,6 +984,7 @@ func classifyB(c CaseB) core.Class {
 }
 
 func TestC15b(t *testing.T) {
+	defer censusVerdict()
 	core.Run(t, core.Spec[CaseB]{
 		Property: "C15", Sub: "b",
 		Rule: "sequential history of 2-12 steps over 1-3 proxies started with `socks add`: connect (ATYP 1/3/4, domain length incl. 0/255, request split outside the address, agent answers ok / error / later), client->agent data (1-5 chunks of 0..70000 bytes, each its own write), agent->client data (READ callbacks, type REVERSE_PROXY), close by agent CLOSE callback / client FIN / client RST (before and after the connect reply), socks add (also duplicate port) / list / kill / clear, reverse-port-forward sessions (OPEN, READ type CLIENT against a harness TCP target that answers and closes, or REMOVE first). Oracle: connect task = request; concatenated write-task bodies of that socket id = client bytes in order and nothing for other ids; client reads exactly the bytes of the READ callbacks; a close from either side removes the id from the socket table, ends the client's stream, and queues a close task when the agent still has the socket; kill/clear remove exactly the proxies named, end their accept loops, drop their sockets with close tasks, return with all three mutexes free; forward target receives the agent's bytes, the target's answer comes back as write tasks of that forward id, REMOVE empties the forward table and ends the target's stream. Non-trivial: a request split across >=2 writes, domain length 0 or 255, or >=2 clients; distinct = set of step kinds x clients x split x domain class x big chunk",
